@@ -3,6 +3,8 @@ Mutant = 0
 MaxSends = 4
 MaxOps = 100
 Clauses = "C19"
+MaxRPCs = 100
+ParkOn = TRUE
 INIT Init
 NEXT Next
 POSTCONDITION Verdict
